@@ -368,6 +368,8 @@ func computeReference(p *Program) (Reference, error) {
 	for _, pkg := range p.Packages {
 		ex := newExecState(ExecCfg{}, nil)
 		simrt.SetPermHook(ex.perm)
+		simrt.StartClock(0x5ef) // the reference has its own simulated date
+		defer simrt.StopClock()
 		ps, err := protobuild.NewPackageSet(newMemDeps(p, ex), &memSource{prog: p, ex: ex})
 		if err != nil {
 			return nil, err
@@ -397,6 +399,13 @@ func runExec(p *Program, ref Reference, cfg ExecCfg, stats *Stats) (*Violation, 
 	ex := newExecState(cfg, stats)
 	simrt.SetPermHook(ex.perm)
 	defer simrt.SetPermHook(nil)
+	simrt.StartClock(cfg.Seed) // every execution runs at its own simulated date and clock rate
+	defer func() {
+		if stats != nil {
+			stats.Probes["simulated_clock_reads"] += simrt.ClockReads()
+		}
+		simrt.StopClock()
+	}()
 	ctx := context.Background()
 	var sharedDeps *memDeps
 	if cfg.SharedDeps {
